@@ -5,7 +5,7 @@ From Sessions Require Import Model.Base Model.Sess Model.Hist Model.Mutex Model.
 From Coq Require Import Lia Permutation.
 
 Theorem serial_order kk reqs w cs0 ls cs :
-  CI0 kk reqs w cs0 -> crun true kk reqs cs0 ls = Some cs -> cadm_run true kk reqs cs0 ls ->
+  CI0 kk reqs w cs0 -> crun true reqs cs0 ls = Some cs -> cadm_run true reqs cs0 ls ->
   (forall g1 g2, holds_key (c_lock cs) g1 kk = true -> holds_key (c_lock cs) g2 kk = true -> g1 = g2) /\
   (forall g, is_looked (nth g (c_ph cs) PIdle) = true -> holds_key (c_lock cs) g kk = true) /\
   c_acts cs = rev (acts_of ls) /\
@@ -25,7 +25,7 @@ Proof.
   split; [intros g1 g2; exact (no_overlap kk reqs w cs g1 g2 HC)|].
   split; [intro g; exact (looked_inside kk reqs w cs g HC)|].
   split.
-  { destruct (crun_acts _ _ _ _ _ _ Hrun) as [E _]. destruct H0 as (_ & _ & _ & Ha & _).
+  { destruct (crun_acts _ _ _ _ _ Hrun) as [E _]. destruct H0 as (_ & _ & _ & Ha & _).
     rewrite E, Ha, app_nil_r. reflexivity. }
   cbv zeta. pose proof HC as (_ & _ & W1 & W2 & W3 & W4).
   split; [exact W2|]. split; [exact W1|]. split; [exact W3|]. split; [exact W4|].
@@ -34,19 +34,19 @@ Qed.
 
 Theorem progress kk reqs w :
   (* every step other than a clock tick decreases the measure *)
-  (forall cs lab cs', cstep true kk reqs cs lab = Some cs' ->
+  (forall cs lab cs', cstep true reqs cs lab = Some cs' ->
      match lab with CTick _ => cmeasure cs' = cmeasure cs | _ => cmeasure cs' < cmeasure cs end) /\
-  (forall ls cs cs', crun true kk reqs cs ls = Some cs' ->
+  (forall ls cs cs', crun true reqs cs ls = Some cs' ->
      length (filter (fun lab => match lab with CTick _ => false | _ => true end) ls) + cmeasure cs' <= cmeasure cs) /\
   forall cs0 ls cs,
-    CI0 kk reqs w cs0 -> crun true kk reqs cs0 ls = Some cs -> cadm_run true kk reqs cs0 ls ->
+    CI0 kk reqs w cs0 -> crun true reqs cs0 ls = Some cs -> cadm_run true reqs cs0 ls ->
     (* no deadlock *)
     (all_done cs = false ->
-       exists lab cs', no_tick lab /\ cstep true kk reqs cs lab = Some cs' /\ cadm cs lab) /\
+       exists lab cs', no_tick lab /\ cstep true reqs cs lab = Some cs' /\ cadm cs lab) /\
     (* a run that only clock ticks can extend has let everybody finish *)
-    ((forall lab cs', no_tick lab -> cstep true kk reqs cs lab = Some cs' -> ~ cadm cs lab) -> all_done cs = true) /\
+    ((forall lab cs', no_tick lab -> cstep true reqs cs lab = Some cs' -> ~ cadm cs lab) -> all_done cs = true) /\
     (* and can be so extended *)
-    (exists ls' cs', crun true kk reqs cs ls' = Some cs' /\ cadm_run true kk reqs cs ls' /\
+    (exists ls' cs', crun true reqs cs ls' = Some cs' /\ cadm_run true reqs cs ls' /\
                      Forall no_tick ls' /\ all_done cs' = true) /\
     (* when everybody has finished every goroutine's Start has returned *)
     (all_done cs = true -> forall g, g < length reqs -> exists o, nth_error (c_ph cs) g = Some (PDone o)).
@@ -64,9 +64,32 @@ Lemma CI0_meaning kk reqs w cs :
   CI0 kk reqs w cs <->
   Inv (c_lock cs) /\
   (length (c_ph cs) = length (gs (c_lock cs)) /\ length reqs = length (gs (c_lock cs)) /\
-   forall g x p, nth_error (gs (c_lock cs)) g = Some x -> nth_error (c_ph cs) g = Some p -> gp_ok kk x p = true) /\
+   (forall g x p, nth_error (gs (c_lock cs)) g = Some x -> nth_error (c_ph cs) g = Some p -> gp_ok kk x p = true) /\
+   Forall (plain_on kk) reqs) /\
   Forall (fun p => p = PIdle) (c_ph cs) /\ c_acts cs = [] /\ mkWorld (c_st cs) (c_jars cs) = w.
 Proof. reflexivity. Qed.
+
+(* the lock key determines the ID: every request of an initial state is a plain
+   call of Start (empty handler script) carrying the SAME ID as a forged cookie *)
+Lemma key_code_inj k1 k2 : key_code k1 = key_code k2 -> k1 = k2.
+Proof. destruct k1, k2; cbn [key_code]; intro H; try (f_equal; lia); exfalso; lia. Qed.
+
+Lemma plain_on_meaning k r :
+  plain_on (key_code k) r <-> rq_script r = [] /\ rq_present r = PForge (CKey k).
+Proof.
+  unfold plain_on. split.
+  - intros (Hs & k0 & Hp & Hk). apply key_code_inj in Hk. subst k0. auto.
+  - intros (Hs & Hp). eauto.
+Qed.
+
+Lemma lock_key_meaning :
+  (forall k, lock_key (CKey k) = Some (key_code k)) /\
+  (forall c, (forall k, c <> CKey k) -> lock_key c = None) /\
+  (forall k1 k2, key_code k1 = key_code k2 -> k1 = k2).
+Proof.
+  split; [reflexivity|]. split; [|exact key_code_inj].
+  intros c H. destruct c; try reflexivity. exfalso. eapply H. reflexivity.
+Qed.
 
 Lemma gp_ok_idle_meaning kk x :
   gp_ok kk x PIdle = true <->
@@ -112,4 +135,20 @@ Proof.
     + intros [E|(g & t' & E)]; [discriminate|]. right. exists g, (a :: t'). rewrite E. reflexivity.
     + intros [E|(g & [|x t'] & E)]; [discriminate | discriminate|].
       right. injection E as _ E. exists g, t'. exact E.
+Qed.
+
+(* the requests of an initial state whose lock key is that of the ID k *)
+Lemma initial_requests k reqs w cs : CI0 (key_code k) reqs w cs ->
+  Forall (fun r => rq_script r = [] /\ rq_present r = PForge (CKey k)) reqs.
+Proof.
+  intros (_ & (_ & _ & _ & HK) & _). eapply Forall_impl; [|exact HK].
+  intros r Hr. apply plain_on_meaning. exact Hr.
+Qed.
+
+(* ... and a lock key that is not the code of the presented ID admits no request *)
+Lemma initial_key_tied kk reqs w cs r k : CI0 kk reqs w cs -> In r reqs ->
+  rq_present r = PForge (CKey k) -> kk = key_code k.
+Proof.
+  intros (_ & (_ & _ & _ & HK) & _) Hin Hp. rewrite Forall_forall in HK.
+  destruct (HK r Hin) as (_ & k0 & Hp0 & <-). rewrite Hp in Hp0. injection Hp0 as ->. reflexivity.
 Qed.
